@@ -7,6 +7,7 @@ package simapi
 import (
 	"context"
 	"fmt"
+	"reflect"
 	"sort"
 	"strconv"
 	"sync"
@@ -198,8 +199,10 @@ func (c *CondClient) Create(ctx context.Context, obj *v1alpha1.RateLimitConditio
 		c.point("post", "create", name)
 		return nil, apierrors.NewAlreadyExists(condGR, name)
 	}
+	// pkg/gateway/controlplane/registry/proxy/rest registers ratelimitconditions with
+	// NewDefaultRESTStrategy(false, false): no status subresource, so creation
+	// keeps the status and a main-resource update writes it
 	st := obj.DeepCopy()
-	st.Status = v1alpha1.RateLimitStatus{} // creation clears status (REST strategy)
 	st.ResourceVersion = a.nextRV()
 	st.Generation = 1
 	a.objs[name] = st
@@ -231,21 +234,22 @@ func (c *CondClient) update(verb string, obj *v1alpha1.RateLimitCondition, statu
 		c.point("post", verb, name)
 		return nil, apierrors.NewConflict(condGR, name, fmt.Errorf("the object has been modified (have %s, sent %s)", old.ResourceVersion, obj.ResourceVersion))
 	}
-	st := obj.DeepCopy()
 	if status {
-		// status update never changes spec or labels
-		st.Spec = *old.Spec.DeepCopy()
-		st.Labels = old.Labels
+		// there is no status subresource for this resource in the control plane
+		a.mu.Unlock()
+		c.point("post", verb, name)
+		return nil, apierrors.NewNotFound(condGR, name+"/status")
+	}
+	st := obj.DeepCopy()
+	if !reflect.DeepEqual(st.Spec, old.Spec) || !reflect.DeepEqual(st.Annotations, old.Annotations) {
+		st.Generation = old.Generation + 1
 	} else {
-		// main-resource update never changes status
-		st.Status = *old.Status.DeepCopy()
+		st.Generation = old.Generation
 	}
 	st.ResourceVersion = a.nextRV()
 	a.objs[name] = st
 	a.touched(name)
-	if !status {
-		a.writes = append(a.writes, WriteRec{Node: c.Node, Name: name, Obj: st.DeepCopy()})
-	}
+	a.writes = append(a.writes, WriteRec{Node: c.Node, Name: name, Obj: st.DeepCopy()})
 	ret := st.DeepCopy()
 	a.mu.Unlock()
 	if out := c.point("post", verb, name); out != Proceed {
